@@ -314,6 +314,11 @@ func (m *resourceManager) handleReadResource(ctx context.Context, req *JSONRPCRe
 		return newJSONRPCErrorResponse(req.ID, ErrCodeInternal, err.Error(), nil), nil
 	}
 
+	// MCP requires "contents" to be an array; a nil slice would be encoded as null.
+	if contents == nil {
+		contents = []ResourceContents{}
+	}
+
 	// Create result
 	result := ReadResourceResult{
 		Contents: contents,
